@@ -14,7 +14,7 @@ SOURCES = [
     ("fork", lambda c: stream.pipeline(c, "fork")),
     ("buffered", lambda c: stream.pipeline(c, "buffered")),
     # bus: the lock-step clause -- MC_Heap explores it on the model and emits the schedules
-    ("bus-lockstep", lambda c: stream.pipeline(c, "bus", mc=dict(mc="MC_Heap", actions=["Pull"]))),
+    ("bus-lockstep", lambda c: stream.pipeline(c, "bus", mc=dict(mc="MC_Heap", actions=["Pull", "DropAt", "AttachAt"]))),
 ]
 REPLAY = {
     "bounded": lambda c, r: ring.pipeline(c, replay=r),
